@@ -120,6 +120,24 @@ class HT(PaneBase, out_format='tuple', in_format=('tuple', 'struct')):
     c: t.FrozenSet[int] = frozenset()
 
 
+_TN = t.TypeVar('_TN')
+
+
+class NItem(PaneBase, t.Generic[_TN]):
+    value: _TN
+
+
+class NShelf(PaneBase, t.Generic[_TN]):
+    """the type variable reaches another generic dataclass only THROUGH typing constructs"""
+    items: t.List[NItem[_TN]] = field(default_factory=list)
+    spare: t.Optional[NItem[_TN]] = None
+    by_name: t.Dict[str, NItem[_TN]] = field(default_factory=dict)
+
+
+NSHELF = (NShelf[fractions.Fraction], NShelf[datetime.date], NShelf[E1])
+NITEM = (NItem[fractions.Fraction], NItem[datetime.date], NItem[E1])
+
+
 class IN1(PaneBase):
     """explicit in_names, no out_name: written under the python name, which is always an input name"""
     v: int = field(in_names=('vee',), default=0)
@@ -227,13 +245,28 @@ def native(kind, sel, i, j):
     elif kind == 36:
         x = HT.make_unchecked(a=pick2(FRS, sel), b=pick2(DATES, sel), c=frozenset((i, j)))
         return (HT if sel != 2 else t.Dict[str, t.Optional[HT]]), (x if sel != 2 else {'k': x}), None
+    elif kind == 38:
+        # values whose serialised form differs from the value (Fraction, date, enum member), two generic dataclasses deep
+        n = 0 if sel == 0 else (1 if sel == 1 else 2)
+        v = pick2(FRS, i + 1) if n == 0 else (pick2(DATES, i + 1) if n == 1 else (E1.A if i > 0 else E1.B))
+        It = NITEM[0] if n == 0 else (NITEM[1] if n == 1 else NITEM[2])
+        Sh = NSHELF[0] if n == 0 else (NSHELF[1] if n == 1 else NSHELF[2])
+        x = Sh.make_unchecked(items=[It.make_unchecked(value=v)], spare=(It.make_unchecked(value=v) if j > 0 else None),
+                              by_name=({'k': It.make_unchecked(value=v)} if j == 0 else {}))
+        return Sh, x, None
+    elif kind == 39:
+        n = 0 if sel == 0 else (1 if sel == 1 else 2)
+        v = pick2(FRS, i + 1) if n == 0 else (pick2(DATES, i + 1) if n == 1 else E1.A)
+        It = NITEM[0] if n == 0 else (NITEM[1] if n == 1 else NITEM[2])
+        Sh = NSHELF[0] if n == 0 else (NSHELF[1] if n == 1 else NSHELF[2])
+        return t.List[Sh], [Sh.make_unchecked(items=[It.make_unchecked(value=v), It.make_unchecked(value=v)])], None
     else:
         # date first / datetime first: a date-only text is read by both, so the member order decides the type that comes back
         pane.convert([datetime.datetime(2020, 1, 2, 3, 4)], list[t.Union[datetime.datetime, datetime.date]])
         return list[t.Union[datetime.date, datetime.datetime]], [pick2(DATES, sel)], None
 
 
-for _k in range(38):
+for _k in range(40):
     for _s in range(3):
         try:
             (_T, _x, _f) = native(_k, _s, 1, 0)
@@ -267,8 +300,8 @@ def body_native_{lo}(kind: int, sel: int, i: int, j: int) -> int:
             return r
     return 0
 '''
-for _lo in range(0, 38, 2):
-    exec(_NAT.format(lo=_lo, hi=min(_lo + 1, 37)))
+for _lo in range(0, 40, 2):
+    exec(_NAT.format(lo=_lo, hi=min(_lo + 1, 39)))
 
 
 @obligation(pre="0 <= which <= 2 and 0 <= e <= 1", witnesses=(0,), timeout=120)
